@@ -131,26 +131,26 @@ func (o opT) coq() string {
 }
 
 type plan struct {
-	idx      int
-	swamp    string
-	idle     bool
-	ops      []opT
-	split    int // ops[:split] before the restart
-	claim    int // 0 none 1 ShiftExpired 2 ShiftMatching window 3 PatchExpired 4 ShiftMatching filter on key index
-	cClear   bool
-	cTcls    int
-	winFrom  int // class or -1
-	winTo    int
-	t0       int64
-	ops2     []opT // materialised
-	cT       tsv
-	err      error
-	r1, r2   *reads
-	claimed  []seenKV
-	lastKey  int
-	lastOK   bool
-	lastSet  bool
-	midGet   []seenKV
+	idx     int
+	swamp   string
+	idle    bool
+	ops     []opT
+	split   int // ops[:split] before the restart
+	claim   int // 0 none 1 ShiftExpired 2 ShiftMatching window 3 PatchExpired 4 ShiftMatching filter on key index
+	cClear  bool
+	cTcls   int
+	winFrom int // class or -1
+	winTo   int
+	t0      int64
+	ops2    []opT // materialised
+	cT      tsv
+	err     error
+	r1, r2  *reads
+	claimed []seenKV
+	lastKey int
+	lastOK  bool
+	lastSet bool
+	midGet  []seenKV
 }
 
 type seenKV struct {
@@ -173,10 +173,10 @@ func (s seenKV) coq() string {
 }
 
 type reads struct {
-	get, asc, desc              []seenKV
-	win, wind                   []int
-	wf, wt                      *int64
-	lt, gt, empty, nempty       []int
+	get, asc, desc        []seenKV
+	win, wind             []int
+	wf, wt                *int64
+	lt, gt, empty, nempty []int
 }
 
 func keyName(k int) string { return fmt.Sprintf("k%d", k) }
@@ -379,8 +379,8 @@ func genPlan(rng *common.Rng, idx int, tier string) *plan {
 		p.ops = append(p.ops, o)
 	}
 	p.split = rng.Intn(len(p.ops) + 1)
-	p.claim = rng.Intn(5)
-	p.cClear = rng.Chance(25)
+	p.claim = []int{0, 1, 2, 3, 3, 3, 4}[rng.Intn(7)]
+	p.cClear = rng.Chance(45) // PatchExpired with ClearExpiredAt, followed by the expiry-ordered reads of r2
 	p.cTcls = []int{0, 6, 6, 5, 1, 3, 7}[rng.Intn(7)]
 	wc := []int{-1, 1, 3, 5, 6, 10, 7}
 	p.winFrom = wc[rng.Intn(len(wc))]
@@ -560,6 +560,13 @@ func main() {
 			claim = common.Some(common.App("OPatchExpired", nowZ, common.Bool(p.cClear), p.cT.coq(), noFlags))
 		}
 		run.Hist(fmt.Sprintf("claim:%d", p.claim))
+		if p.claim == 3 && len(p.claimed) > 0 {
+			if p.cClear {
+				run.Hist("patchexpired_clear_selected_then_index_reads")
+			} else if p.cT.Has {
+				run.Hist("patchexpired_set_" + classNames[p.cT.Cls] + "_selected_then_index_reads")
+			}
+		}
 		run.Hist(fmt.Sprintf("claimed:%d", len(p.claimed)))
 		if p.idle {
 			run.Hist("idle_close_pattern")
